@@ -276,6 +276,36 @@ def rule_drain(ck, facts):
                 ck.ok(R, key)
             else:
                 ck.bad(R, key, "%s can return without %s: on the samples where it leaves early, tasks scheduled meanwhile stay in the channel and the `must be in the future` test later compares against a stale time, so a task scheduled while a later one is pending runs late" % (f.short, "polling the channel of newly scheduled tasks" if what == "poll" else "storing the current time"), f.where())
+        # (order) what dsp of the previous sample scheduled for this sample is still in the channel: it has to be in
+        # the queue before the due tasks of this sample are run, and before the time the `in the future` test compares
+        # with moves on
+        runs = [b for b, t in f.calls() if (callee(t) or "").split("::")[-1] in ("pop_task", "execute_closure")]
+        if polls and runs:
+            late = [r for r in runs if not any(p in dom.get(r, ()) and p != r for p in polls)]
+            if not late:
+                ck.ok(R, "order|poll-before-run")
+            else:
+                ck.bad(R, "order|poll-before-run", "%s runs the due tasks before it has moved the newly scheduled tasks from the channel into the queue: a task that dsp scheduled for exactly the next sample is still in the channel when that sample's tasks run, and is rejected afterwards because its time is no longer in the future" % f.short, f.where(f.term(late[0])))
+    # (clock) both runtimes keep a copy of the current sample index for the `must be in the future` test of `@`; in the
+    # per-sample routine it is set to the sample being served — the routine's time argument itself, no arithmetic
+    from ..rules.guards import Terms
+    nclk = 0
+    for f in sc.fns:
+        if f.kind == "promoted" or "::test" in f.path or not f.short.endswith("::on_sample"):
+            continue
+        T = Terms(f)
+        for b, t in f.calls():
+            nm = (callee(t) or "").split("::")[-1]
+            if nm not in ("set_cur_time", "set_current_time") or len(t[5]) < 2:
+                continue
+            nclk += 1
+            term = T.op(t[5][1])
+            key = "clock|%s" % ("wasm" if "wasm" in f.path.lower() else "vm")
+            if "'bin'" in repr(term):
+                ck.bad(R, key, "%s sets the scheduler's clock to a value computed from the sample time (%s) instead of the sample time itself: `@` compares a task's time with that clock, so while dsp of sample t runs a task scheduled for t+1 is refused as `not in the future` (or one scheduled for t is accepted) on this runtime only" % (f.short, repr(term)[:80]), f.where(t))
+            else:
+                ck.ok(R, key)
+    ck.floor(R, "clock_updates_in_on_sample", nclk, 2)
     # (all due tasks)
     n = 0
     for f in sc.fns:
